@@ -37,6 +37,7 @@ def letters_for(cfg):
     L['idle.3T'] = 'idle', 0.3 * cfg['T']
     L['idle2T'] = 'idle', 2 * cfg['T']
     L['NEWLOOP'] = 'newloop', None
+    L['NEWLOOP-OPEN'] = 'newloop-open', None
     L['close'] = 'close', None
     return L
 
@@ -47,6 +48,8 @@ def apply(s: Session, L, name):
         s.idle(b)
     elif a == 'newloop':
         s.newloop()
+    elif a == 'newloop-open':
+        s.newloop_open()
     elif a == 'close':
         s.close()
     else:
@@ -197,7 +200,7 @@ def groups(sent, tcp):
 
 def entry_cases(tier):
     import itertools
-    grid = list(itertools.product((1, 2, 3), (0, 1, 3))) if tier == 'thorough' else [(1, 0), (2, 1), (3, 3)]
+    grid = list(itertools.product((1, 2, 3, 0.5), (0, 1, 3))) if tier == 'thorough' else [(1, 0), (2, 1), (3, 3), (1.5, 1)]
     fams = ['ET', 'EH', 'BT', 'BH', 'ES', 'EM', 'BP', 'DT', 'MS', 'NS', 'XS']
     for (T, R) in grid:
         for mode in ('silent', 'first'):
